@@ -672,6 +672,14 @@ func GenTProgram(r *h.Rand, cfg TCfg) *TProgram {
 		s := &TService{Name: fmt.Sprintf("Svc%c", 'A'+k), File: main, Funcs: mkFuncs(main, 1+r.Intn(3))}
 		if baseSvc != nil && r.Bool() {
 			s.Extends = baseSvc
+			// service names are file scoped: a derived service may carry the name of its base in another file
+			taken := false
+			for _, o := range main.Services {
+				taken = taken || o.Name == baseSvc.Name
+			}
+			if !taken && r.Chance(35) {
+				s.Name = baseSvc.Name
+			}
 		} else if k > 0 && r.Chance(30) {
 			s.Extends = main.Services[0] // same-file inheritance
 		}
